@@ -297,9 +297,14 @@ __gmp_doprnt_mpf (const struct doprnt_funs_t *funs,
     {
       /* Pad to requested precision with trailing zeros, for general this is
          all digits, for fixed and scientific just the fraction.  */
-      preczeros = prec - (fraczeros + fraclen
-                          + (p->conv == DOPRNT_CONV_GENERAL
-                             ? intlen + intzeros : 0));
+      if (p->conv == DOPRNT_CONV_GENERAL && intlen == 0 && fraclen != 0)
+        /* a value below 1 in fixed style: the zeros in front of its first
+           digit, before and after the point, are not significant digits */
+        preczeros = prec - fraclen;
+      else
+        preczeros = prec - (fraczeros + fraclen
+                            + (p->conv == DOPRNT_CONV_GENERAL
+                               ? intlen + intzeros : 0));
       preczeros = MAX (0, preczeros);
     }
   else
